@@ -23,6 +23,11 @@ var solvers = []solverSpec{
 		return []string{"cvc5", fmt.Sprintf("--tlimit=%d", t*1000), "--lang=smt2", f}
 	}},
 	{"z3-4.8", func(f string, t int) []string { return []string{"z3", "-smt2", fmt.Sprintf("-T:%d", t), f} }},
+	// the same solver with relevancy propagation off: several times faster on the large straight-line queries of the
+	// connection-setup proofs (many appends), slower elsewhere — one more runner in the race
+	{"z3-5.1-r0", func(f string, t int) []string {
+		return []string{"z3-new", "-smt2", fmt.Sprintf("-T:%d", t), "smt.relevancy=0", f}
+	}},
 }
 
 type solveResult struct {
